@@ -68,6 +68,23 @@ Proof.
   destruct Hid as [Hid | Hid]; [contradiction | ]. now rewrite Hid.
 Qed.
 
+(** the same with the rule written out (no definition of Spec.v in the statement) *)
+Lemma c19_admit_explicit : forall s auth fr, admission s auth fr = Admit ->
+  exists p, fr = FirstPacket p /\
+    fp_kind p = KConnect /\ fp_level_ok p = true /\
+    fp_keep_alive p <> 0 /\
+    (fp_client_id p <> [] \/ fp_clean p = true) /\
+    ((st_auth s = None /\ st_external s = false) \/
+     (st_external s = true /\
+      exists l, fp_login p = Some l /\ auth (fp_client_id p) (lg_user l) (lg_pass l) = true) \/
+     (st_external s = false /\
+      exists l pairs, fp_login p = Some l /\ st_auth s = Some pairs /\
+                      al_get str_eqb (lg_user l) pairs = Some (lg_pass l))).
+Proof. exact c19_admit. Qed.
+
+Lemma c19_admit_iff : forall s auth fr, admission s auth fr = Admit <-> admissible s auth fr.
+Proof. intros s auth fr. split; [apply c19_admit | apply c19_admit_complete]. Qed.
+
 (** an error CONNACK is written only for the empty client id of a persistent session, and
     only after credentials and keep-alive passed *)
 Lemma c19_reject_connack : forall s auth fr code, admission s auth fr = Reject_connack code ->
